@@ -37,7 +37,7 @@ RECURSIVE Sorted(_)
 Sorted(S) == IF S = {} THEN <<>> ELSE LET m == CHOOSE x \in S : \A y \in S : x <= y IN <<m>> \o Sorted(S \ {m})
 TimesSeq == Sorted(Times)
 Reqs == [i \in 1..Len(TimesSeq) |-> C!Req(TimesSeq[i], "serverAuth", <<>>)]
-        \o (IF Extras THEN << C!Req(5, "any", <<>>), C!Req(5, "serverAuth", C!LeafName), C!Req(5, "serverAuth", C!OtherName) >> ELSE <<>>)
+        \o (IF Extras THEN << C!Req(5, "any", <<>>), C!Req(5, "serverAuth", C!LeafHost), C!Req(5, "serverAuth", C!OtherHost) >> ELSE <<>>)
 
 Init == C!Init /\ kpat \in KPats /\ lastcode = 0 /\ topo = 0 /\ ri = 0 /\ hist = <<>>
 
@@ -55,7 +55,7 @@ CrossCode == IF HasCross THEN (CHOOSE j \in 1..(leaf - 2) : pki[j].subj = pki[le
              ELSE 0
 HasR2 == Len(pki) >= 2 /\ pki[2].subj = "R2"
 TopoLinear == ~HasCross /\ ~HasR2
-TopoOf == Len(pki) + 16 * (IF 1 \in roots' THEN 1 ELSE 0) + 32 * (IF 2 \in roots' /\ HasR2 THEN 1 ELSE 0) + 64 * CrossCode
+TopoOf == Len(pki) + 8 * (IF HasR2 THEN 1 ELSE 0) + 16 * (IF 1 \in roots' THEN 1 ELSE 0) + 32 * (IF 2 \in roots' /\ HasR2 THEN 1 ELSE 0) + 64 * CrossCode
 
 Below(c) == pki[leaf].pos - 1 - pki[c].pos
 (* kinds of modification, numbered; code = 16 * kind + cert id orders them *)
@@ -69,7 +69,12 @@ Mod(k, c) ==
   \/ (k = 17 /\ c \in DOMAIN pki /\ Below(c) >= 0 /\ C!SetPathLen(c, Below(c), Below(c)))
   \/ (k = 18 /\ C!PermitLeafZone(c)) \/ (k = 19 /\ C!ExcludeOther(c)) \/ (k = 20 /\ C!KuAbsent(c))      \/ (k = 21 /\ C!KuCertSignOnly(c))
   \/ (k = 22 /\ C!EkuServer(c))      \/ (k = 23 /\ C!EkuAny(c))       \/ (k = 24 /\ C!NoSAN(c))         \/ (k = 25 /\ C!TwoNames(c))
-NKinds == 25
+  \/ (k = 26 /\ C!DnsOnly(c))
+  \/ (k = 27 /\ C!ViolateNCOf("ip", c))   \/ (k = 28 /\ C!ViolateNCOf("email", c))   \/ (k = 29 /\ C!ViolateNCOf("uri", c))
+  \/ (k = 30 /\ C!ExcludedNCOf("ip", c))  \/ (k = 31 /\ C!ExcludedNCOf("email", c))  \/ (k = 32 /\ C!ExcludedNCOf("uri", c))
+  \/ (k = 33 /\ C!PermitLeafOf("ip", c))  \/ (k = 34 /\ C!PermitLeafOf("box", c))    \/ (k = 35 /\ C!PermitLeafOf("maildom", c))
+  \/ (k = 36 /\ C!PermitLeafOf("uri", c))
+NKinds == 36
 InPlay(c) == c \in roots \/ c \in inters \/ c = leaf
 Sampled(m, x) == m = 1 \/ (m > 1 /\ R!Pick(Seed, 31, x % 100003, m) = 0)
 Modify == \E k \in 1..NKinds, c \in 1..12 :
